@@ -95,7 +95,7 @@ class Extracted:
 def class_members(cls_file, cls):
     """member function names and data member names of a class, read from its definition"""
     src = repo_text(cls_file)
-    m = re.search(r'class\s+(?:NIXAPI\s+)?%s\b[^;{]*\{' % cls, src)
+    m = re.search(r'(?:class|struct)\s+(?:NIXAPI\s+)?%s\b[^;{]*\{' % cls, src)
     if not m:
         raise ExtractError('class %s not found in %s' % (cls, cls_file))
     d = 0; e = m.end() - 1
@@ -278,6 +278,8 @@ def extract(unit, enums, sigs):
     toks = r_drop_streams(ctx, toks)
     toks = r_rangefor(ctx, toks)
     scan_decls(ctx, toks)
+    toks = r_auto(ctx, toks)
+    toks = r_iterators(ctx, toks)
     # member access
     if cls:
         funcs, datas = class_members(unit['cls_file'], unit.get('cls_decl', cls))
@@ -289,8 +291,10 @@ def extract(unit, enums, sigs):
     toks = r_ctor_decl(ctx, toks)
     toks = r_ctor_calls(ctx, toks)
     toks = r_opcalls(ctx, toks)
+    toks = r_iter_methods(ctx, toks)
     toks = r_methods(ctx, toks)
     toks = r_methods(ctx, toks)      # second pass: methods on call results  f(...).g(...)
+    toks = r_call_index(ctx, toks)
     toks = r_class_ops(ctx, toks)
     toks = r_optionals(ctx, toks)
     toks = r_vectors(ctx, toks)
